@@ -198,9 +198,6 @@ Proof.
   constructor; simpl; try xfield X; xstep X.
   - assert (E : cur (st s f) = t) by lia.
     destruct (N.ltb_spec (cur (st s f)) (rterm m)); [lia|]. apply (v_cur s X t f c H E).
-  - exfalso. destruct (v_msg s X m Hm) as [Lt He].
-    rewrite H0 in He. destruct (f_es V0 s F _ _ _ _ _ He H).
-    congruence.
   - exact Hwf'.
   - exact Hmono'.
   - split; [reflexivity|]. exists K0. split; [exact HK0|]. split; [exact HlK0|].
@@ -217,7 +214,7 @@ Proof.
   - pose proof (prefix_length _ _ HCk) as Hl1. rewrite firstn_length_le' in Hl1 by (apply (k_len s X)).
     pose proof (prefix_length _ _ HXl) as Hl2. rewrite HlX' in Hl2.
     set (cn := commit (st s f)) in *.
-    set (c2 := Nat.min (rcommit m) (rprevIdx m + length (rents m))) in *.
+    match goal with |- context [Nat.max cn ?c] => set (c2 := c) in * end.
     destruct (Nat.max_spec cn c2) as [[Hlt ->]|[Hge ->]].
     + destruct (HNc c2 ltac:(unfold c2; lia) ltac:(rewrite HlX'; unfold c2; lia))
         as [H0|[t [k [M [H1 [H2 [H3 H4]]]]]]]; [left; exact H0|].
